@@ -79,6 +79,8 @@ def table_cases(ctx, rng):
 
 def check(ctx):
     rng = np.random.default_rng(ctx.seed)
+    from bigcell import check_bigcells
+    check_bigcells(ctx, "C01", np.random.default_rng(ctx.seed + 2002))   # supercells of 36-216 atoms
     ctx.rule = ("G-tables: all free abelian translation groups Z_d1 x Z_d2 x Z_d3 (n_lp <= 8) x n_a in {1,2,3}, N <= 6 (quick) / 8, atoms relabelled and rows shuffled at random, "
                 "each with no cutoff and with a random translation-invariant cutoff relation, orders 2,3,4 (order 4: N <= 4 quick / 6); G-cells: small low-symmetry crystals through the public classes. "
                 "Non-trivial: n_lp >= 2 or a cutoff that removes elements")
